@@ -605,6 +605,15 @@ func init() {
 			return fatalFail(r)
 		}
 		key, _ := jsonStr(cs)
+		if cs.C.K == "aliastables" {
+			// the table is in the list, its first row (a list that starts at the
+			// same address and has the same length) is not
+			c.Ev.Count(key, true, "iter:aliased-lists")
+			if it := r.Items[0]; it.Status != "ok" || !strings.Contains(it.S, "contains=true,false;contains=false,false") {
+				return &Fail{Sig: "iterate:contains-aliased", Expected: "contains=true,false;contains=false,false", Observed: it.Status + " " + it.S + it.Msg}
+			}
+			return nil
+		}
 		if cs.Grow > 0 {
 			c.Ev.Count(key, true, map[bool]string{true: "iter:growing-map", false: "iter:shrinking-list"}[strings.Contains(key, `"hash"`)])
 			return judgeGrowing(cs, r.Items[0])
@@ -718,6 +727,9 @@ func init() {
 			}
 			return cs
 		})
+		if c.Shard == 0 {
+			iter.Check(c, &c16Iter{C: sb.V{K: "aliastables"}, Probe: []sb.V{{K: "aliasrows"}, {K: "aliashead"}}})
+		}
 		iter.Rapid(c, c.Share(c.Pick(10000, 1000000)), genIter)
 		// string-keyed maps (direct and behind a pointer) that grow while iterated
 		iter.Rapid(c, c.Share(c.Pick(1500, 100000)), func(t *rapid.T) *c16Iter {
